@@ -558,6 +558,59 @@ pub async fn run(a: &Args) -> Report {
         }
     }
 
+    // ---- (1c) the configuration file is a LIST: one process serves every documented protocol and cipher at once, two entries
+    // of every kind with credentials of their own (and, for the 32-byte ciphers, one KEY shared across three ciphers). Every
+    // entry must be exactly what it would be alone: canaries through all of them, three interleaved rounds.
+    {
+        let shared_key = rng.bytes(32);
+        let mut entries: Vec<(Cfg, u16, Value)> = Vec::new();
+        for p in crate::real::all_protos() {
+            for copy in 0..2 {
+                let mut c = Cfg::random(&mut rng, p, if matches!(p, Proto::Vmess(_)) { 1 } else { 0 });
+                if copy == 1 {
+                    if let Proto::Ss(m) = p {
+                        if m.is_2022() && m.key_len() == 32 {
+                            c.server_psk = shared_key.clone();
+                        }
+                    }
+                }
+                let port = free_port();
+                let e = c.server_entry("127.0.0.1", port, "tcp_and_udp");
+                entries.push((c, port, e));
+            }
+        }
+        let conf = Value::Array(entries.iter().map(|e| e.2.clone()).collect());
+        let (t, dd, conf2) = (tag(), dir.clone(), conf.clone());
+        let st = tokio::task::spawn_blocking(move || start_and_observe("server", &conf2, &dd, &t, Duration::from_millis(900))).await.unwrap();
+        if let Ok(mut s) = st {
+            for round in 0..3 {
+                for (c, port, _) in entries.iter() {
+                    rep.evaluations += 1;
+                    rep.mon("canaries_through_one_process_serving_every_protocol", 1);
+                    rep.distinct.insert(crate::report::hash_of(&("all-in-one", c.proto.name(), *port)));
+                    if !s.tcp.contains(port) {
+                        if round == 0 {
+                            rep.violation(format!("C16|all-in-one|{}|entry-does-not-listen", c.proto.name()), format!("one process, {} entries: the entry for {} on port {port} does not listen", entries.len(), c.proto.name()), json!({"log": s.log}));
+                        }
+                        continue;
+                    }
+                    let mut r = canary_ref_client(c, *port, &mut rng).await;
+                    if r.is_err() {
+                        r = canary_ref_client(c, *port, &mut rng).await;
+                    }
+                    match r {
+                        Ok(()) => rep.mon("canaries_ok", 1),
+                        Err(e) => rep.violation(format!("C16|all-in-one|{}|reference-client-not-served:{}", c.proto.name(), crate::panicmon::normalise(&e)), format!("one process serving {} entries: the {} entry (round {round}) does not serve the reference client configured with ITS credential: {e}", entries.len(), c.proto.name()), json!({"entry": c.server_entry("127.0.0.1", *port, "tcp_and_udp"), "log": s.node.log_tail(8)})),
+                    }
+                }
+            }
+            if s.node.exit_status().is_some() {
+                rep.violation("C16|all-in-one|server-exited".to_string(), "the server serving every protocol at once exited".to_string(), json!({"log": s.node.log_tail(8)}));
+            }
+            s.node.kill();
+        }
+    }
+
     // ---- (2) client modes and every cipher name on the client side (interoperation with the reference server)
     for (mode, want_tcp, want_udp) in [("tcp", true, false), ("udp", false, true), ("tcp_and_udp", true, true)] {
         for (cname, m) in cipher_names() {
